@@ -167,7 +167,7 @@ fn finish(r: &mut Prng, mut case: Case) -> Case {
         let hs = case.add_handler(HandlerSpec::plain(HKind::Infix, Ret::Marker));
         case.pre.insert(0, Op::RegIn { name: "st_op".into(), prec: 105, setter: false, right: false, h: hs });
         for o in case.pre.iter_mut() {
-            if let Op::Exec { prog: Prog::Stmts(st), .. } | Op::ParseExec { prog: Prog::Stmts(st), .. } = o {
+            if let Op::Exec { prog: Prog::Stmts(st), .. } | Op::ExecSole { prog: Prog::Stmts(st), .. } | Op::ParseExec { prog: Prog::Stmts(st), .. } = o {
                 st.insert(0, bin("st_op", lit_i(1), lit_i(2)));
             }
         }
@@ -240,7 +240,8 @@ pub fn storm_case(r: &mut Prng) -> Case {
     for _ in 0..n {
         let prog = r.pick(&progs).clone();
         ops.push(if r.chance(1, 3) {
-            Op::ParseExec { prog, ctx: CtxRef::Slot(0), times: 1 }
+            // (every other one as the only strong owner of the context's handle)
+            if ops.len() % 2 == 0 { Op::ExecSole { prog, slot: 0 } } else { Op::ParseExec { prog, ctx: CtxRef::Slot(0), times: 1 } }
         } else {
             Op::Exec { prog, ctx: CtxRef::Slot(0) }
         });
@@ -405,7 +406,7 @@ impl Prop for C15 {
             (n, before)
         };
         rt.sample(json!({
-            "program": match base.threads.first().map(|t| &t[0]).or(base.pre.last()) { Some(Op::Exec{prog,..}) | Some(Op::ParseExec{prog,..}) => prog.text(), _ => String::new() },
+            "program": match base.threads.first().map(|t| &t[0]).or(base.pre.last()) { Some(Op::Exec{prog,..}) | Some(Op::ExecSole{prog,..}) | Some(Op::ParseExec{prog,..}) => prog.text(), _ => String::new() },
             "context": format!("{:?}", base.slots[0]),
             "bystander": base.threads.get(1).map(|t| t.iter().map(crate::props::c13::show_op).collect::<Vec<_>>()),
             "follow_up": base.post.iter().map(crate::props::c13::show_op).collect::<Vec<_>>(),
